@@ -15,7 +15,9 @@ META = dict(
          "from_type_string, from_path, certificate-bearing) for RSA (three hashes), ECDSA P-256/384/521 and "
          "Ed25519 signs random data; each signature is verified by every object of the same key, by an "
          "independent verifier, against other data and other keys, and after bit flips, truncations, "
-         "extensions, algorithm-name edits and malformed inner encodings. The real verify_ssh_sig answer is "
+         "extensions, algorithm-name edits and malformed inner encodings (incl. ECDSA r/s re-encoded without the "
+         "sign-padding byte, i.e. a different, negative value with the same magnitude bytes, checked under every "
+         "object of the key). RSA moduli cover every bit length residue mod 8 in each run. The real verify_ssh_sig answer is "
          "compared with the independent verdict on the decoded content and every exception escaping it is a "
          "violation. Holds for the executions produced only.",
     note="Trusts cryptography's ECDSA/Ed25519 verification and Python's pow(). Mutations that decode to the "
@@ -85,7 +87,7 @@ def split_sig(sigbytes):
     return rd.string(), rd.string()
 
 
-def mutate(rng, fam, sigbytes):
+def mutate(rng, fam, sigbytes, force=None):
     """-> (mutation class, mutated signature bytes)"""
     name, blob = split_sig(sigbytes)
     kind = fam.kind
@@ -97,10 +99,11 @@ def mutate(rng, fam, sigbytes):
                     "rsa-alias"]
     elif kind.startswith("ecdsa"):
         specific = ["ec-neg-r", "ec-neg-s", "ec-zero", "ec-plus-n", "ec-n-minus-s", "ec-swap", "ec-oversized",
-                    "ec-missing-s", "ec-extra-zeros", "ec-inner-junk", "ec-neg-r", "ec-n-minus-s"]
+                    "ec-missing-s", "ec-extra-zeros", "ec-inner-junk", "ec-neg-r", "ec-n-minus-s",
+                    "ec-drop-sign-pad", "ec-drop-sign-pad", "ec-twos-complement-alias"]
     else:
         specific = ["ed-short", "ed-long", "ed-short", "ed-halves"]
-    cls = rng.choice(generic + specific + specific)
+    cls = force or rng.choice(generic + specific + specific)
     b = bytearray(sigbytes)
     if cls == "flip":
         i = rng.randrange(len(b) * 8)
@@ -178,6 +181,24 @@ def mutate(rng, fam, sigbytes):
             return cls, ko.sig_message(name, ko.ecdsa_blob(*rng.choice([(r + order, s), (r, s + order), (order, s)])))
         if cls == "ec-n-minus-s":  # the other valid signature of the pair (malleability): oracle decides
             return cls, ko.sig_message(name, ko.ecdsa_blob(r, order - s))
+        if cls == "ec-drop-sign-pad":
+            # non-canonical re-encoding that CHANGES the value: the 0x00 sign-padding byte of an integer whose top
+            # bit is set is dropped, so the same magnitude bytes now read (RFC 4251 mpint, two's complement) as a
+            # negative number. Only applicable when r or s has its top bit set.
+            mag = lambda v: v.to_bytes((v.bit_length() + 7) // 8, "big")
+            which = [w for w, v in (("r", r), ("s", s)) if v > 0 and v.bit_length() % 8 == 0]
+            if not which:
+                return "ec-drop-sign-pad-not-applicable", sigbytes
+            w = rng.choice(which + (["both"] if len(which) == 2 else []))
+            rb = ko.w_string(mag(r)) if w in ("r", "both") else ko.w_mpint(r)
+            sb = ko.w_string(mag(s)) if w in ("s", "both") else ko.w_mpint(s)
+            return cls, ko.sig_message(name, rb + sb)
+        if cls == "ec-twos-complement-alias":
+            # integers that differ from the signed ones only by how a reader treats the sign: r - 2^k (the negative
+            # number with the same low k bits), and r + 2^k (same low bits, one more byte)
+            k = 8 * ((r.bit_length() + 7) // 8)
+            return cls, ko.sig_message(name, ko.ecdsa_blob(*rng.choice([(r - (1 << k), s), (r, s - (1 << (8 * ((s.bit_length() + 7) // 8)))),
+                                                                         (r + (1 << k), s)])))
         if cls == "ec-swap":
             return cls, ko.sig_message(name, ko.ecdsa_blob(s, r))
         if cls == "ec-oversized":
@@ -214,6 +235,19 @@ def build_families(ctx):
     for j, (kind, via) in enumerate(gens):
         if ctx.mine(j + ctx.seed):
             fams.append(ctx.guard(ko.family_generated, kind, ctx.rng, via))
+    # generator dimension "modulus bit length mod 8": every shard takes two residues, so that a quick run (4 shards)
+    # covers all eight; the signature is ceil(bits/8) bytes long while key_size // 8 is one less for residues != 0
+    for t in range(2):
+        residue = (2 * ctx.shard + t + ctx.seed) % 8
+        base = ctx.rng.choice([1024, 1032, 1280, 1536, 2040] if ctx.quick else [1024, 1280, 1536, 2040, 2048, 3064])
+        bits = base + residue
+        fam = ctx.guard(ko.family_generated, "rsa%d" % bits, ctx.rng, "paramiko" if t == 0 else "file")
+        if fam is not None:
+            got = fam.pub.public_numbers().n.bit_length()
+            ctx.count("rsa_modulus_bits_mod8_is_%d" % (got % 8))
+            if got % 8:
+                ctx.count("rsa_families_modulus_not_byte_aligned")
+            fams.append(fam)
     return [f for f in fams if f is not None]
 
 
@@ -265,6 +299,8 @@ def exercise(ctx, fam, n_sigs, n_mut):
                      if si == 0 and v_origin == "public-bytes" else None)
             r = verify(ctx, vobj, v_origin, fam, data, sigbytes, "genuine")
             ctx.count("genuine_checks")
+            if fam.kind == "rsa" and fam.pub.key_size % 8:
+                ctx.count("rsa_unaligned_modulus_genuine_checks")
             if r is False:
                 ctx.violation("genuine signature not accepted (%s)" % algtag,
                               "a signature produced by the key does not verify under an object of the same key",
@@ -329,8 +365,14 @@ def exercise(ctx, fam, n_sigs, n_mut):
         # (e) altered signatures
         genuine_content = ko.decode_sig(fam.pub, sigbytes)
         sampled = 0
-        for mi in range(n_mut):
-            cls, mut = mutate(rng, fam, sigbytes)
+        forced = []
+        if fam.kind.startswith("ecdsa"):
+            forced = ["ec-drop-sign-pad", "ec-drop-sign-pad", "ec-twos-complement-alias", "ec-neg-r", "ec-extra-zeros"]
+        for mi in range(n_mut + len(forced)):
+            cls, mut = mutate(rng, fam, sigbytes, force=forced[mi - n_mut] if mi >= n_mut else None)
+            if cls == "ec-drop-sign-pad-not-applicable":
+                ctx.count("ecdsa_sign_pad_not_applicable")
+                continue
             if mut == sigbytes:
                 ctx.case((fam.kind, "unchanged"), nontrivial=False)
                 continue
@@ -339,6 +381,11 @@ def exercise(ctx, fam, n_sigs, n_mut):
             ctx.count("oracle_evals")
             want = ko.ref_verify(fam.pub, data, mut)
             targets = [rng.choice(fam.objs), rng.choice(fam.objs)]
+            if cls in ("ec-drop-sign-pad", "ec-twos-complement-alias", "ec-neg-r", "ec-neg-s"):
+                targets = fam.objs  # the private key object(s) and every public counterpart
+                ctx.count("ecdsa_reencoded_value_changed_checks" if not trivial else "ecdsa_reencoded_trivial", len(targets))
+                if cls == "ec-drop-sign-pad":
+                    ctx.count("ecdsa_sign_pad_dropped_checks", len(targets))
             for v_origin, vobj in targets:
                 ctx.case((fam.kind, alg, cls, v_origin, mut), nontrivial=not trivial,
                          sample=dict(scenario="altered", mutation=cls, kind=fam.kind, verifier=v_origin,
@@ -346,6 +393,8 @@ def exercise(ctx, fam, n_sigs, n_mut):
                          if sampled < 1 and not trivial and si == 1 else None)
                 sampled += 1
                 r = verify(ctx, vobj, v_origin, fam, data, mut, "altered:" + cls)
+                if fam.kind == "rsa" and fam.pub.key_size % 8 and not trivial:
+                    ctx.count("rsa_unaligned_modulus_altered_checks")
                 ctx.count("mutations_" + ("trivial" if trivial else "judged" if want != "alias" else "alias_not_judged"))
                 if r is None or trivial or want == "alias":
                     continue
@@ -391,3 +440,8 @@ def run(ctx):
     ctx.require("forgery_checks", 100)
     ctx.require("mutations_judged", 2000)
     ctx.require("oracle_evals", 2000)
+    ctx.require("ecdsa_sign_pad_dropped_checks", 150)
+    ctx.require("ecdsa_reencoded_value_changed_checks", 600)
+    ctx.require("rsa_families_modulus_not_byte_aligned", 5)
+    ctx.require("rsa_unaligned_modulus_genuine_checks", 150)
+    ctx.require("rsa_unaligned_modulus_altered_checks", 1000)
